@@ -87,8 +87,8 @@ def body(ctx, shard):
     # the same objects may have been written before with data of another dtype / other values (dict source only)
     earlier = ctx.choose('earlier-write', ['none', 'other-dtype', 'same-dtype-other-values']) if src == 'dict' else 'none'
     # a row window: exactly the rows inside it, numbered from 1 (windows in depth are C11's business)
-    # (free in the quick tier so that window x one more deviation is covered; the thorough bound 2 covers it anyway)
-    win = ctx.choose('window', ['all', 'from-1', 'to-last-but-one', 'middle'], free=shard.get('tier') != 'thorough')
+    # (free: the window is crossed with every deviation, e.g. window x input chunk leaving a remainder)
+    win = ctx.choose('window', ['all', 'from-1', 'to-last-but-one', 'middle'], free=True)
     lo, hi = {'all': (0, None), 'from-1': (1, None), 'to-last-but-one': (0, rows - 1), 'middle': (1, rows - 1)}[win]
     if (rows if hi is None else hi) - lo < 1:
         lo, hi = 0, None
